@@ -169,6 +169,13 @@ func (v *ScriptView) writeModifySQLForAColumn(attrTypeOld, attrTypeNew *sysl.Typ
 	attrName string, primaryKeys *[]string, visitedAttributes map[string]string) (bool, bool) {
 	typeRefNew := attrTypeNew.GetTypeRef()
 	typeRefOld := attrTypeOld.GetTypeRef()
+	// only Table.column references are foreign keys
+	if typeRefNew != nil && len(typeRefNew.GetRef().GetPath()) < 2 {
+		typeRefNew = nil
+	}
+	if typeRefOld != nil && len(typeRefOld.GetRef().GetPath()) < 2 {
+		typeRefOld = nil
+	}
 	primaryKeyChanged := false
 
 	isAutoIncrementOld, isPrimaryKeyOld := isAutoIncrementAndPrimaryKey(attrTypeOld)
